@@ -1072,7 +1072,8 @@ fn main() {
                     let mine = match replay_idx { Some(r) => r == IDX && replay_val.is_some(), None => $i % nshards == shard && $i < nfmt && replay_val.is_none() };
                     if mine {
                         const FMT: u128 = fmt_of(IDX);
-                        let d = desc_of::<FMT>(IDX);
+                        // what the enabled cargo features let the builder express (fields without a setter keep their defaults)
+                        let d = vharness::fmttab::effective(&desc_of::<FMT>(IDX));
                         if !lexical_core::format_is_valid::<FMT>() {
                             rep.inconclusive(format!("sampled format #{IDX} {} is not valid for lexical: {:?}", d.name(), lexical_core::format_error::<FMT>()));
                         } else {
